@@ -197,7 +197,8 @@ def gen_derive(rng, w, t):
     m, n, tc = M.m, M.n, M.tc
     names = w.sorted_names()
     kind = rng.choice(['add', 'sub', 'mul', 'div', 'neg', 'pos', 'abs', 'T', 'H', 'real', 'imag', 'get1', 'get2', 'get2', 'copy',
-                       'reshape', 'convert', 'emul', 'addnum', 'rsubnum', 'smul', 'ediv', 'emax', 'emin', 'vstack', 'hstack', 'fromlist'])
+                       'reshape', 'convert', 'emul', 'addnum', 'rsubnum', 'smul', 'ediv', 'emax', 'emin', 'vstack', 'hstack', 'fromlist',
+                       'raddnum', 'mulnum', 'subnum'])
     nm = w.fresh()
     if kind == 'fromlist':
         vt = rng.choice(['i', 'd', 'z'])
@@ -225,7 +226,7 @@ def gen_derive(rng, w, t):
         return ['derive', nm, 'mul', t, other]
     if kind == 'div':
         return ['derive', nm, 'div', t, {'k': 'num', 'v': rng.choice([1, -1, 2, 2.0, -2.0, 0.5, 4.0, [0.0, 2.0], [0.0, -1.0]])}]
-    if kind in ('addnum', 'rsubnum', 'smul'):
+    if kind in ('addnum', 'rsubnum', 'smul', 'raddnum', 'mulnum', 'subnum'):
         return ['derive', nm, kind, t, {'k': 'num', 'v': mkval(rng.choice([tc, 'i', 'd', 'z']), rng)}]
     if kind == 'get1':
         return ['derive', nm, 'get1', t, SPS.gen_index(rng, m * n, for_assign=False)]
@@ -483,9 +484,15 @@ def apply(op, w, stats):
                 fr, fm = (lambda: X * Y), (lambda: MDL.mul(M, N))
             else:
                 fr, fm = (lambda: cmul(X, Y)), (lambda: MDL.emul(M, N))
-        elif dk in ('div', 'addnum', 'rsubnum', 'smul'):
+        elif dk in ('div', 'addnum', 'rsubnum', 'smul', 'raddnum', 'mulnum', 'subnum'):
             v = lit(op[4]['v'])
-            if dk == 'div':
+            if dk == 'raddnum':
+                fr, fm = (lambda: v + X), (lambda: MDL.add(M, v, 1))
+            elif dk == 'mulnum':
+                fr, fm = (lambda: X * v), (lambda: MDL.mul(M, v))
+            elif dk == 'subnum':
+                fr, fm = (lambda: X - v), (lambda: MDL.add(M, v, -1))
+            elif dk == 'div':
                 fr, fm = (lambda: X / v), (lambda: MDL.div(M, v))
             elif dk == 'addnum':
                 fr, fm = (lambda: X + v), (lambda: MDL.add(M, v, 1))
